@@ -285,6 +285,27 @@ pub mod cluster {
         keyspaces: &[KeyspaceSpec],
         tablet_tables: &HashMap<String, Vec<String>>,
     ) -> ClusterState {
+        build_state(None, nodes, keyspaces, tablet_tables).await
+    }
+
+    /// A metadata refresh: `previous.new_updated(metadata, ..)` with the new topology / keyspaces
+    /// (nodes that stay keep their `Node` object unless their DC / rack / address changed, tablets are
+    /// carried over and go through `perform_tablets_maintenance` exactly as in the cluster worker).
+    pub async fn cluster_refresh(
+        previous: &ClusterState,
+        nodes: &[NodeSpec],
+        keyspaces: &[KeyspaceSpec],
+        tablet_tables: &HashMap<String, Vec<String>>,
+    ) -> ClusterState {
+        build_state(Some(previous), nodes, keyspaces, tablet_tables).await
+    }
+
+    async fn build_state(
+        previous: Option<&ClusterState>,
+        nodes: &[NodeSpec],
+        keyspaces: &[KeyspaceSpec],
+        tablet_tables: &HashMap<String, Vec<String>>,
+    ) -> ClusterState {
         let peers = nodes
             .iter()
             .enumerate()
@@ -351,7 +372,13 @@ pub mod cluster {
             connectivity_events_sender,
             metrics: crate::observability::metrics::Metrics::new(),
         };
-        let state = ClusterState::new(metadata, &node_config, Some(&RejectAll)).await;
+        let state = match previous {
+            None => ClusterState::new(metadata, &node_config, Some(&RejectAll)).await,
+            Some(prev) => {
+                prev.new_updated(metadata, &node_config, Some(&RejectAll))
+                    .await
+            }
+        };
         for spec in nodes {
             if let Some(node) = state.known_nodes.get(&spec.host_id) {
                 node.verif_override_state(spec.enabled, spec.connected);
